@@ -369,7 +369,7 @@ pub fn case(t: &mut Tape, ctx: &CaseCtx) -> CaseResult {
 pub fn run(mut run: Run) -> i32 {
     run.replay_committed(&case);
     run.shrink_ms = 20_000;
-    run.random("histories x every crash point", &[], run.n(3_000, 60_000), 700, &case);
+    run.random("histories x every crash point", &[], run.n(6_000, 80_000), 700, &case);
     run.note("crash_runs", json!(CRASH_RUNS.load(Ordering::Relaxed)));
     run.note("crash_runs_between_write_and_commit", json!(CRASH_BETWEEN_WRITES.load(Ordering::Relaxed)));
     run.finish(
